@@ -35,6 +35,7 @@ pub fn ropts(tier: Tier) -> GenOpts {
         strata: [5, 2, 1, 3],
         precedence: true,
         avoid_insert: true,
+        pad_tokens: false,
     }
 }
 
